@@ -623,6 +623,32 @@ def replay_status(pid, fails):
 def proof_status_many(pairs):
     """proof_status for several (family, property file) pairs, concurrently, merged into one status."""
     from concurrent.futures import ThreadPoolExecutor
-    with ThreadPoolExecutor(max_workers=6) as ex:
+    with ThreadPoolExecutor(max_workers=12) as ex:
         sts = list(ex.map(lambda fp: proof_status(fp[0], fp[1]), pairs))
     return merge_proofs(sts)
+
+
+class _Later(object):
+    def __init__(self, fn, arg):
+        import threading
+        self._res, self._exc = None, None
+
+        def work():
+            try:
+                self._res = fn(arg)
+            except BaseException as e:  # noqa
+                self._exc = e
+        self._t = threading.Thread(target=work, daemon=True)
+        self._t.start()
+
+    def result(self):
+        self._t.join()
+        if self._exc is not None:
+            raise self._exc
+        return self._res
+
+
+def proof_status_async(pairs):
+    """Start proof_status_many(pairs) in the background (the property files are re-checked while the harness generates
+    and runs its cases); `.result()` waits for it."""
+    return _Later(proof_status_many, list(pairs))
